@@ -19,7 +19,7 @@ CHECKS = {
    note="Hash, hash-to-scalar and element encoding are uninterpreted functions; qndleq with a concrete 64-bit modulus; OPRF blinding algebra, Schnorr (zk/dl) and OT are not covered; two known findings are listed in known_findings.json (qndleq security parameter taken from the proof; non-canonical P-curve scalars).",
    ref="§4 C16"),
  "C17": dict(
-   text="Shamir/Feldman secret sharing (secretsharing + math/polynomial real generic code) over an abstract field (SMT reals, z3 nlsat): t = 1, 2 (3 thorough), every secret / coefficients / distinct non-zero identifiers: t+1 shares recover the secret, t or fewer are refused, dealt shares verify, altered ones do not; threshold RSA: the integer Lagrange coefficient computeLambda is exact (lambda*den == Delta*num) for every set of k distinct players out of l (l=5,k=2,3; l=7,k=4 thorough), decided on the real math/big code with symbolic player indices.",
+   text="Shamir/Feldman secret sharing (secretsharing + math/polynomial real generic code) over an abstract field (SMT reals, z3 nlsat): t = 1, 2 (3 thorough), every secret / coefficients / distinct non-zero identifiers: t+1 shares recover the secret, t or fewer are refused, dealt shares verify, altered ones do not; threshold RSA: the integer Lagrange coefficient computeLambda is exact (lambda*den == Delta*num) for every set of k distinct players out of l (l=5,k=2,3; l=7,k=4 thorough), decided on the real math/big code with symbolic player indices; CombineSignShares raises exactly the shares it multiplies in to |2*lambda(T,0,j)| of one set T of >= k players (three shares of a (5,2) sharing, arbitrary distinct indices, modular exponentiation recorded).",
    note="Abstract field of characteristic 0; element/scalar encodings not modelled; RSA exponentiation and share generation (computePolynomial with float powers for large l) not covered.",
    ref="§4 C17"),
  "C01": dict(
@@ -51,7 +51,7 @@ CHECKS = {
    note="Full 512-bit red512 is attempted but unknown (tier=deep, not claimed); point arithmetic / group equation outside the technique.",
    ref="§4 C05"),
  "C06": dict(
-   text="X25519/X448 input handling of the real Shared/clamp code for every scalar and peer value (clamping, reduction of u, small-order flag, operands unchanged, canonical output) and the assembly mulA24 of both ladders (both CPU-feature variants) congruent to (A+2)/4 * x for every x.",
+   text="X25519/X448 input handling of the real Shared/clamp code for every scalar and peer value (clamping, reduction of u, success flag false for every all-zero ladder output and every small-order input and true otherwise - for whatever the ladder returns -, operands unchanged, canonical output) and the assembly mulA24 of both ladders (both CPU-feature variants) congruent to (A+2)/4 * x for every x.",
    note="The Montgomery ladder is a recorder/uninterpreted function; ladderStep/diffAdd/double assembly not covered.",
    ref="§4 C06"),
  "C02": dict(
@@ -59,8 +59,8 @@ CHECKS = {
    note="Algebraic validity of honest signatures is outside the technique.",
    ref="§4 C02"),
  "C04": dict(
-   text="Hint decoding of all six ML-DSA/Dilithium parameter sets equals FIPS 204 Algorithm 21 (HintBitUnpack) on every (omega+k)-byte string within the stated hint-count bound: same verdict and same vector; decided by bounded symbolic execution with case split on switch-over points.",
-   note="Bound: switch-over points <= 1 (quick) / <= 2 (thorough); rounding/packing kernels being added.",
+   text="Real ML-DSA/Dilithium code of all six parameter sets decided by SMT: hint decoding equals FIPS 204 Algorithm 21 on every (omega+k)-byte string within the hint-count bound; decompose/makeHint/useHint/power2round and the modular reductions over their entire domains; coefficient (un)packing; rejection samplers and SampleInBall over an arbitrary XOF stream; ExpandMask counter framing for every 16-bit kappa; control skeleton of the signing loop (an iteration is abandoned exactly for the four rejection conditions of the specification with the exact bounds, kappa advances by l; every outcome of every check symbolic, two iterations).",
+   note="Bounds: hint switch-over points <= 1 (quick) / <= 2 (thorough); signing loop <= 2 iterations with arithmetic callees as no-ops (data flow between them not checked); SHAKE uninterpreted; NTT / end-to-end bytes for all seeds outside the technique.",
    ref="§4 C04"),
  "C07": dict(
    text="RFC 9180 §5.1 VerifyPSKInputs: the real verifyPSKInputs decided for all four modes (symbolic mode byte) and all presence combinations of psk / psk_id.",
